@@ -47,6 +47,10 @@ HANDWRITTEN = [
     ("jinja_loop.sql", "select\n    {% for c in ['a', 'b'] %}\n    {{ c }},\n    {% endfor %}\n    1 as z from tbl\n"),
     ("jinja_block.sql", "{% set cols = 'a,  b' %}\nSELECT {{ cols }}\nfrom tbl where  x = 1\n"),
     ("jinja_syntax_error.sql", "select\n    {% for c in ['a', 'b'] %}\n    {{ c }},\n    {% endfOR %}\n    1 as z from tbl\n"),
+    ("jinja_lt02_templated_anchor.sql", 'SELECT\n    c1,\n{{ "c2" }}\n'),
+    ("jinja_if_no_newline.sql", "{% if true %}\nSELECT 1 + 1\n{%- endif %}"),
+    ("jinja_loop_lt02.sql", "SELECT\n    a,\n{% for x in [1, 2] %}\nb{{ x }},\n{% endfor %}\n    c\nFROM t\n"),
+    ("jinja_mixed.sql", "select\n  {{ 'a' }},\n{{'b'}}  from {{ 'tbl' }}"),
     ("jinja_undefined.sql", "select {{ undefined_thing }} from tbl\n"),
     ("unicode.sql", "select 'héllo 世界' as a,\n   b from \"täble\"\nwhere x  = 1\n"),
     ("st05_subquery.sql", "select a.x\nfrom a\njoin (\n    select x,\n        y\n    from b\n) as c on a.x = c.x\n"),
